@@ -13,6 +13,9 @@ struct Ctx
   int shard = 0, nshards = 1;
   uint64_t seed = 1;
   std::string mode; // optional sub-run selector (--mode)
+  double budget_s = 0; // wall-clock budget of this shard (0 = none)
+  double t_start = 0;
+  bool over_budget() const;
   bool thorough() const { return tier == "thorough"; }
 };
 extern Ctx g_ctx;
